@@ -8,6 +8,7 @@ import (
 	"encoding/hex"
 	"encoding/json"
 	"fmt"
+	"io"
 	"os"
 	"os/exec"
 	"path/filepath"
@@ -400,6 +401,50 @@ func RunC05(t *testing.T, registry map[int]lexer.Definition, dataFile string) {
 			}
 			if failed {
 				break
+			}
+		}
+		// the reader entry point of the generated lexer, with a reader the caller has already read from
+		for i := 0; !failed && i < len(d.InputHex) && i < 6; i++ {
+			raw, _ := hex.DecodeString(d.InputHex[i])
+			in := string(raw)
+			want := drain(gen, in, 0)
+			if want.hung || want.panicMsg != "" {
+				break
+			}
+			var got lexOut
+			func() {
+				defer func() {
+					if rec := recover(); rec != nil {
+						got.panicMsg = fmt.Sprint(rec)
+					}
+				}()
+				rd := strings.NewReader("already read\n" + in)
+				_, _ = io.CopyN(io.Discard, rd, int64(len("already read\n")))
+				l, err := gen.Lex("f", rd)
+				if err != nil {
+					got.err = err
+					return
+				}
+				for {
+					tk, err := l.Next()
+					if err != nil {
+						got.err = err
+						return
+					}
+					got.toks = append(got.toks, tk)
+					if tk.EOF() || len(got.toks) > len(in)+4 {
+						return
+					}
+				}
+			}()
+			r.Count("reader_entry_point_cases")
+			same := got.panicMsg == "" && fmt.Sprint(got.err) == fmt.Sprint(want.err) && len(got.toks) == len(want.toks)
+			for j := 0; same && j < len(got.toks); j++ {
+				same = got.toks[j] == want.toks[j]
+			}
+			if !same {
+				fail(d, d.InputHex[i], fmt.Sprintf("the generated lexer's Lex(reader), given a reader that had been read from, yields %s err=%v panic=%q; LexString of what was left yields %s err=%v\ninput %q\n%s",
+					fmtToks(gen, got.toks), got.err, got.panicMsg, fmtToks(gen, want.toks), want.err, in, d.RS.String()))
 			}
 		}
 		// several live lexers of the definition, on different inputs
